@@ -10,6 +10,8 @@ From CE Require Model.Cbe.
 Open Scope N_scope.
 
 (* ---- the property, for every kind of instance ---- *)
+Definition C16_rules : Prop := forall cfg history es,
+  run_reused init_rctx (rules_call cfg) history es = run_fresh init_rctx (rules_call cfg) es.
 Definition C16_reader : Prop := forall max history reads,
   run_reused reader_init (reader_call max) history reads = run_fresh reader_init (reader_call max) reads.
 Definition C16_cbe_encoder : Prop := forall history es,
@@ -19,7 +21,20 @@ Definition C16_cte_encoder : Prop := forall history es,
 Definition C16_cache : Prop := forall dynamic history t,
   run_reused cache_init (cache_call dynamic) history t = run_fresh cache_init (cache_call dynamic) t.
 
-(* ---- CBE reader: holds ---- *)
+(* The whole property: it holds for every kind of instance. *)
+Definition C16_full : Prop :=
+  C16_rules /\ C16_reader /\ C16_cbe_encoder /\ C16_cte_encoder /\ C16_cache.
+
+(* ---- rules validator: holds.  Context.Reset leaves recordTypeName, markerID and the
+   array sub-state behind; no rule reads any of them before it has been written
+   again (checked on the dispatch table regenerated from the code, lemma
+   table_ok_sweep, and proved for all event lists). ---- *)
+Theorem C16_rules_reuse : forall cfg history es,
+  run_reused init_rctx (rules_call cfg) history es = run_fresh init_rctx (rules_call cfg) es.
+Proof. exact rules_reuse. Qed.
+Print Assumptions C16_rules_reuse.
+
+(* ---- CBE reader: holds (SetReader restarts the byte count) ---- *)
 Theorem C16_reader_reuse : forall max history reads,
   run_reused reader_init (reader_call max) history reads = run_fresh reader_init (reader_call max) reads.
 Proof. exact reader_reuse. Qed.
@@ -60,3 +75,49 @@ Theorem C16_cache_partial : forall dynamic history t,
   run_reused cache_init (cache_call dynamic) history t = run_fresh cache_init (cache_call dynamic) t.
 Proof. exact cache_reuse_when. Qed.
 Print Assumptions C16_cache_partial.
+
+(* ---- the full property is violated (by the CBE encoder, the CTE encoder fed a
+   stream without OnBeginDocument, and the type caches) ---- *)
+Theorem C16_full_refuted : ~ C16_full.
+Proof.
+  intros (_ & _ & H & _). destruct cbe_enc_refuted as [h [es N]]. apply N, H.
+Qed.
+Print Assumptions C16_full_refuted.
+
+(* ---- non-vacuity: the hypotheses of the partial theorems are satisfiable on
+   non-trivial histories, and the witnesses of the violations ---- *)
+Example C16_ex_rules :
+  run_reused init_rctx (rules_call default_rcfg)
+    [[EBeginDoc; EVersion 0; EMap; EArrayBegin AT_String; EArrayChunk 3 true; EArrayData [97; 98]];
+     [EBeginDoc; EVersion 0; EList; EMarker [109]]]
+    [EBeginDoc; EVersion 0; EMap; EArrayBegin AT_String; EArrayChunk 1 false; EArrayData [99]; EPosInt 1; EEnd; EEndDoc]
+  = ([EBeginDoc; EVersion 0; EMap; EArrayBegin AT_String; EArrayChunk 1 false; EArrayData [99]; EPosInt 1; EEnd; EEndDoc], None).
+Proof. vm_compute. reflexivity. Qed.
+
+Example C16_ex_cbe_closes :
+  Forall enc_closes [[EBeginDoc; EVersion 0; EArrayBegin CbeConsts.cbeAT_Uint8; EArrayChunk 1 false; EArrayData [7]; EEndDoc];
+                     [EBeginDoc; EVersion 0; EList; ENull]].
+Proof. repeat constructor. Qed.
+
+Example C16_ex_cbe_witness :
+  run_reused Cbe.enc_init cbe_enc_call [[EBeginDoc; EVersion 0; EList; EArrayBegin CbeConsts.cbeAT_Uint8]]
+             [EBeginDoc; EVersion 0; ENull; EEndDoc] = (None, [129; 0; 125; 147]) /\
+  run_fresh Cbe.enc_init cbe_enc_call [EBeginDoc; EVersion 0; ENull; EEndDoc] = (None, [129; 0; 125]).
+Proof. exact cbe_enc_refuted_bytes. Qed.
+
+Example C16_ex_cte_header : has_header [CBegin; CVersion 0; CList; CPosInt 1; CEndContainer; CEndDoc].
+Proof. exists 0, [CList; CPosInt 1; CEndContainer; CEndDoc]. reflexivity. Qed.
+
+Example C16_ex_cache_supported :
+  Forall all_supported [TComp 10 [(true, TLeaf 1); (true, TLeaf 2)]; TComp 20 [(true, TDyn (TLeaf 1))]].
+Proof. repeat constructor. Qed.
+
+Example C16_ex_cache_hang :
+  run_reused cache_init (cache_call true) [TBad 1] (TBad 1) = (CHang, []) /\
+  run_fresh cache_init (cache_call true) (TBad 1) = (CErr, []).
+Proof. exact cache_refuted_hang. Qed.
+
+Example C16_ex_cache_accepts :
+  run_reused cache_init (cache_call false) [TBad 1] (TComp 2 [(true, TLeaf 3); (false, TBad 1)]) = (COk, [2; 3]) /\
+  run_fresh cache_init (cache_call false) (TComp 2 [(true, TLeaf 3); (false, TBad 1)]) = (CErr, []).
+Proof. exact cache_refuted_accepts. Qed.
